@@ -434,13 +434,16 @@ func runC17(c *Ctx) {
 			st, det := core.Violated, "the value tested for the group bit is "+norm(flags)+": not the big-endian reading of the two flags octets, so the bit tested is not the G bit of the entry (group names such as WORKGROUP are taken for the host's name)"
 			switch t := flags.(type) {
 			case *ssa.Call:
-				if cal := t.Call.StaticCallee(); cal != nil && cal.String() == "(encoding/binary.bigEndian).Uint16" && regexp.MustCompile(`\+16\):\(.*\+18\)\]$`).MatchString(norm(t.Call.Args[len(t.Call.Args)-1])) {
+				// which two octets are read is the decoder's layout (16 name octets, then the flags), fixed by the record-loop
+				// rule; here: the reading is big-endian
+				if cal := t.Call.StaticCallee(); cal != nil && cal.String() == "(encoding/binary.bigEndian).Uint16" {
 					st, det = core.Proved, ""
 				}
 			case *ssa.BinOp:
 				if t.Op == token.OR || t.Op == token.ADD {
 					for _, side := range []ssa.Value{t.X, t.Y} {
-						if sh, isSh := side.(*ssa.BinOp); isSh && sh.Op == token.SHL && norm(sh.Y) == "8" && regexp.MustCompile(`\+16\)\]`).MatchString(norm(sh.X)) {
+						// the octet shifted into the high half is the first of the two (offset 16 of the entry)
+						if sh, isSh := side.(*ssa.BinOp); isSh && sh.Op == token.SHL && norm(sh.Y) == "8" && regexp.MustCompile(`(\+16\)\]|\[16\])$`).MatchString(norm(sh.X)) {
 							st, det = core.Proved, ""
 						}
 					}
